@@ -19,10 +19,10 @@ type AUser struct {
 	ID        uint `gorm:"primaryKey;autoIncrement:false"`
 	Tag       int
 	BossID    *uint
-	Boss      *AUser  `gorm:"foreignKey:BossID"`
-	Team      []AUser `gorm:"foreignKey:BossID"`
-	CompanyID uint    // 0 = none (non-pointer foreign key)
-	Company   ACompany `gorm:"foreignKey:CompanyID"`
+	Boss      *AUser    `gorm:"foreignKey:BossID"`
+	Team      []AUser   `gorm:"foreignKey:BossID"`
+	CompanyID uint      // 0 = none (non-pointer foreign key)
+	Company   ACompany  `gorm:"foreignKey:CompanyID"`
 	Profile   *AProfile `gorm:"foreignKey:UserID"`
 	Pets      []*APet   `gorm:"foreignKey:UserID"`
 	Langs     []ALang   `gorm:"many2many:a_user_langs;joinForeignKey:UserID;joinReferences:LangID"`
@@ -101,9 +101,9 @@ type SUser struct {
 	ID        string `gorm:"primaryKey"`
 	Tag       int
 	BossID    *string
-	Boss      *SUser   `gorm:"foreignKey:BossID"`
-	Team      []*SUser `gorm:"foreignKey:BossID"`
-	CompanyID string   // "" = none
+	Boss      *SUser    `gorm:"foreignKey:BossID"`
+	Team      []*SUser  `gorm:"foreignKey:BossID"`
+	CompanyID string    // "" = none
 	Company   *SCompany `gorm:"foreignKey:CompanyID"`
 	Profile   SProfile  `gorm:"foreignKey:UserID"`
 	Pets      []SPet    `gorm:"foreignKey:UserID"`
@@ -418,11 +418,11 @@ func single(prefix string, types map[string]interface{}, keys string) *family {
 		p + "Pet":     {"Owner.Pets", "Owner.Company"},
 	}
 	return mk(f,
-		&model{name: p + "Company", table: table("Company"), typ: t("Company"), pk: id, soft: true, maxRows: 3, rels: []*rel{
+		&model{name: p + "Company", table: table("Company"), typ: t("Company"), pk: id, soft: true, minRows: 1, maxRows: 3, rels: []*rel{
 			{name: "Staff", kind: hasMany, target: p + "User", own: id, tgt: []string{"CompanyID"}},
 			{name: "Notes", kind: polyMany, target: p + "Note", own: id, tgt: []string{"OwnerID"}, polyField: "OwnerType", polyValue: table("Company")},
 		}},
-		&model{name: p + "User", table: table("User"), typ: t("User"), pk: id, minRows: 1, maxRows: 5,
+		&model{name: p + "User", table: table("User"), typ: t("User"), pk: id, minRows: 2, maxRows: 6,
 			fks: []fk{{[]string{"BossID"}, p + "User", id}, {[]string{"CompanyID"}, p + "Company", id}},
 			rels: []*rel{
 				{name: "Boss", kind: belongsTo, target: p + "User", own: []string{"BossID"}, tgt: id, self: true},
@@ -436,7 +436,7 @@ func single(prefix string, types map[string]interface{}, keys string) *family {
 				{name: "Badge", kind: polyOne, target: p + "Badge", own: id, tgt: []string{"OwnerID"}, polyField: "OwnerType", polyValue: table("User")},
 			}},
 		&model{name: p + "Profile", table: table("Profile"), typ: t("Profile"), pk: id, fks: []fk{{[]string{"UserID"}, p + "User", id}}},
-		&model{name: p + "Pet", table: table("Pet"), typ: t("Pet"), pk: id, soft: true, maxRows: 7, fks: []fk{{[]string{"UserID"}, p + "User", id}}, rels: []*rel{
+		&model{name: p + "Pet", table: table("Pet"), typ: t("Pet"), pk: id, soft: true, minRows: 1, maxRows: 8, fks: []fk{{[]string{"UserID"}, p + "User", id}}, rels: []*rel{
 			{name: "Owner", kind: belongsTo, target: p + "User", own: []string{"UserID"}, tgt: id},
 			{name: "Toys", kind: hasMany, target: p + "Toy", own: id, tgt: []string{"PetID"}},
 		}},
@@ -478,10 +478,10 @@ func composite(p string, k1, k2 string, types map[string]interface{}, keys strin
 		p + "Pet":     {"Owner.Pets", "Owner.Company"},
 	}
 	return mk(f,
-		&model{name: p + "Company", table: lower + "companies", typ: t("Company"), pk: key, soft: true, maxRows: 3, rels: []*rel{
+		&model{name: p + "Company", table: lower + "companies", typ: t("Company"), pk: key, soft: true, minRows: 1, maxRows: 3, rels: []*rel{
 			{name: "Staff", kind: hasMany, target: p + "User", own: key, tgt: pre("Co")},
 		}},
-		&model{name: p + "User", table: lower + "users", typ: t("User"), pk: key, minRows: 1, maxRows: 5,
+		&model{name: p + "User", table: lower + "users", typ: t("User"), pk: key, minRows: 2, maxRows: 6,
 			fks: []fk{{pre("Boss"), p + "User", key}, {pre("Co"), p + "Company", key}},
 			rels: []*rel{
 				{name: "Boss", kind: belongsTo, target: p + "User", own: pre("Boss"), tgt: key, self: true},
@@ -492,7 +492,7 @@ func composite(p string, k1, k2 string, types map[string]interface{}, keys strin
 				{name: "Langs", kind: many2many, target: p + "Lang", own: key, tgt: key, join: p + "UserLang", jOwn: pre("User"), jRel: pre("Lang")},
 			}},
 		&model{name: p + "Profile", table: lower + "profiles", typ: t("Profile"), pk: id, fks: []fk{{pre("User"), p + "User", key}}},
-		&model{name: p + "Pet", table: lower + "pets", typ: t("Pet"), pk: petPK, soft: true, maxRows: 7, fks: []fk{{pre("User"), p + "User", key}}, rels: []*rel{
+		&model{name: p + "Pet", table: lower + "pets", typ: t("Pet"), pk: petPK, soft: true, minRows: 1, maxRows: 8, fks: []fk{{pre("User"), p + "User", key}}, rels: []*rel{
 			{name: "Owner", kind: belongsTo, target: p + "User", own: pre("User"), tgt: key},
 			{name: "Toys", kind: hasMany, target: p + "Toy", own: toyT, tgt: toyFK},
 		}},
